@@ -12,6 +12,8 @@ pub struct FdScript {
     pub tx_caps: VecDeque<usize>,
     pub recv_calls: usize,
     pub send_calls: usize,
+    /// when the scripted segments are used up, recvmsg reports end-of-stream instead of blocking
+    pub rx_eof: bool,
 }
 
 
@@ -28,6 +30,7 @@ pub fn register(fd: i32, segs: &[usize]) {
             tx_caps: VecDeque::new(),
             recv_calls: 0,
             send_calls: 0,
+            rx_eof: false,
         },
     );
 }
@@ -46,8 +49,15 @@ pub fn set_tx_caps(fd: i32, caps: &[usize]) {
         tx_caps: VecDeque::new(),
         recv_calls: 0,
         send_calls: 0,
+        rx_eof: false,
     });
     e.tx_caps = caps.iter().cloned().collect();
+}
+pub fn set_rx_eof(fd: i32, v: bool) {
+    let mut g = REG.lock().unwrap();
+    if let Some(s) = g.as_mut().and_then(|m| m.get_mut(&fd)) {
+        s.rx_eof = v;
+    }
 }
 pub fn unregister(fd: i32) -> Option<(usize, usize)> {
     let mut g = REG.lock().unwrap();
@@ -76,6 +86,11 @@ pub unsafe extern "C" fn recvmsg(fd: libc::c_int, msg: *mut libc::msghdr, flags:
         match g.as_mut().and_then(|m| m.get_mut(&fd)) {
             Some(s) => {
                 s.recv_calls += 1;
+                if s.rx_segments.is_empty() && s.rx_eof {
+                    (*msg).msg_controllen = 0;
+                    (*msg).msg_flags = 0;
+                    return 0;
+                }
                 let mut c = s.rx_segments.front().cloned();
                 if let Some(k) = s.rx_caps.pop_front() {
                     c = Some(c.map(|x| x.min(k)).unwrap_or(k));
